@@ -158,8 +158,6 @@ type Observer struct {
 	cfg      Config
 	types    sync.Map // reflect.Type (named, non-pointer) -> *typeInfo
 	interest sync.Map // reflect.Type -> bool
-	// Stage, when non-nil, receives a pointer to the name of the method about to
-	// be called (for watchdogs). It must be cheap.
 }
 
 // New returns an Observer.
